@@ -27,13 +27,21 @@ def _run_one(pid, m, repo, tier):
         try:
             dst = os.path.join(tmp, 'repo')
             shutil.copytree(repo, dst, ignore=shutil.ignore_patterns('.git', '__pycache__', '*.pyc', 'test'))
-            path = os.path.join(dst, m['file'])
-            src = open(path).read()
-            if src.count(m['old']) < 1:
-                results.append({'name': m['name'], 'status': 'not-applicable', 'detail': 'pattern not found'})
-                continue
-            src2 = src.replace(m['old'], m['new'], m.get('count', 1))
-            open(path, 'w').write(src2)
+            if m.get('revert'):
+                # un-fix: reverse-apply a `fix:` commit of the repository (the defect it repaired must be reported again)
+                diff = subprocess.run(['git', '-C', repo, 'show', m['revert'], '--', 'pyx12'], capture_output=True, text=True).stdout
+                pr = subprocess.run(['patch', '-R', '-p1', '--no-backup-if-mismatch'], input=diff, cwd=dst, capture_output=True, text=True)
+                if pr.returncode != 0:
+                    results.append({'name': m['name'], 'status': 'not-applicable', 'detail': 'reverse patch does not apply: ' + pr.stdout[-200:]})
+                    continue
+            else:
+                path = os.path.join(dst, m['file'])
+                src = open(path).read()
+                if src.count(m['old']) < 1:
+                    results.append({'name': m['name'], 'status': 'not-applicable', 'detail': 'pattern not found'})
+                    continue
+                src2 = src.replace(m['old'], m['new'], m.get('count', 1))
+                open(path, 'w').write(src2)
             t0 = time.time()
             env = dict(os.environ)
             env['PYVC_EVIDENCE_DIR'] = os.path.join(tmp, 'evidence')
@@ -57,10 +65,19 @@ if __name__ == '__main__':
     pid = sys.argv[1]
     sys.path.insert(0, VERIF)
     import importlib
-    mod = importlib.import_module('mutants.' + pid)
-    sel = sys.argv[2:] 
-    ms = [m for m in mod.MUTANTS if not sel or m['name'] in sel]
-    out = run_mutants(pid, ms)
+    sel = sys.argv[2:]
+    if pid == 'FIXES':
+        # every `fix:` commit reverted, checked with the property it was recorded for
+        mod = importlib.import_module('mutants.FIXES')
+        out = []
+        for prop in sorted(set(m['property'] for m in mod.MUTANTS)):
+            ms = [m for m in mod.MUTANTS if m['property'] == prop and (not sel or m['name'] in sel)]
+            if ms:
+                out += run_mutants(prop, ms)
+    else:
+        mod = importlib.import_module('mutants.' + pid)
+        ms = [m for m in mod.MUTANTS if not sel or m['name'] in sel]
+        out = run_mutants(pid, ms)
     for r in out:
         print(json.dumps(r))
     bad = [r for r in out if r['status'] not in ('caught', 'verified', 'not-applicable')]
